@@ -212,13 +212,13 @@ def c04(tier):
 
 def c09(tier):
     vlib.standard(
-        "C09", tier, "c09", ["Properties_C09.v", "Proofs_Edit.v", "Proofs_Prec.v"],
+        "C09", tier, "c09", ["Properties_C09.v", "Proofs_Edit.v", "Proofs_Prec.v", "Proofs_PrecParse.v"],
         assume=[
-            "STATED LIMIT: 'the substituted program parses and type-checks' is not a theorem (no formal Go grammar/type system is available here); it is decided per diagnostic by go/parser and go/types in the oracle",
+            "STATED LIMIT: 'the substituted program type-checks' is not a theorem (no formal Go type system here): decided per diagnostic by go/types in the oracle; 'parses as intended' is a theorem for the expression fragment of Model_Prec/Model_PrecParse only (operators, unary, selector/call/index/assertion/composite suffixes, parentheses), decided by go/parser in the oracle otherwise",
             "commentFormatting is modelled for ASCII case folding and ASCII white space",
             "quoted replacement code is recognised by per-checker message patterns of the hand-written checkers named in the property",
         ],
-        trusted=["translator vh gen suggest (Suggest templates and wildcard runs of rulesdata.PrecompiledRules)", "go/parser, go/types (source importer), astutil.PathEnclosingInterval as references"])
+        trusted=["translator vh gen suggest (Suggest templates and wildcard runs of rulesdata.PrecompiledRules)", "translator vh gen prectable (patterns/templates of the executed IR as Model_Prec trees)", "Model_PrecParse as a model of go/parser's precedence climbing (differentially tied on generated expressions each run), token adjacency not modelled", "go/parser, go/types (source importer), astutil.PathEnclosingInterval as references"])
 
 
 
